@@ -70,8 +70,15 @@ def gen_cases(ctx):
     for i in range(ctx.scale(1500, 64000)):
         if i % 8 == 7:
             seq = [gen_inst(rng) for _ in range(rng.randint(2, 4))]
+            if i % 16 == 15:
+                # same name, same shape, other content: later instances are variants of the first
+                base = seq[0]
+                seq = [base] + [
+                    {"cls": base["cls"], "machines": [[list(m) for m in j] for j in base["machines"]],
+                     "durations": [[rng.randint(1, 9) for _ in j] for j in base["durations"]]}
+                    for _ in range(rng.randint(1, 3))]
             yield {"kind": "reuse", "instances": seq, "seed": rng.randrange(2**31),
-                   "instance": seq[-1]}
+                   "instance": seq[-1], "call": rng.random() < 0.5}
         else:
             yield {"kind": "solve", "instance": gen_inst(rng, big=i % 10 == 0),
                    "seed": rng.randrange(2**31), "call": rng.random() < 0.3,
@@ -206,7 +213,7 @@ def run_case(ctx, case):
         for k, inst in enumerate(case["instances"]):
             instance = gen.build(inst)
             try:
-                S1 = shared.solve(instance)
+                S1 = shared(instance) if case.get("call") else shared.solve(instance)
                 S2 = ORToolsSolver().solve(instance)
             except NoSolutionFoundError as e:
                 ctx.violation("c03_no_solution_without_time_limit",
